@@ -728,10 +728,14 @@ namespace bloch::compiler {
         while (check(TokenType::At)) {
             // TODO: refactor this, currently if invalid variable annotation is used, it will be
             // caught rather than thrown this is a rather hacky solution.
+            size_t start = m_current;
             try {
                 annotations.push_back(parseVariableAnnotation());
             } catch (BlochError error) {
+                m_current = start;  // the failed attempt has consumed the '@'
                 annotations.push_back(parseFunctionAnnotation());
+                if (annotations.back()->name == "shots")
+                    reportError("'@shots(N)' can only decorate the main() function.");
             }
         }
 
